@@ -36,5 +36,5 @@ Proof.
   intros I g e s H1 H2 H3 Ht. unfold Smtlib.get_bv_width.
   destruct (Smtlib.bv_width I e) as [w|] eqn:E; [| right; now left].
   destruct (Z.eq_dec w (-1)) as [-> | Hne]; [now left|].
-  right; right. destruct (bv_width_sound_weak I g e w s H1 H2 H3 E Hne Ht). now split.
+  right; right. destruct (bv_width_sound_weak_proof I g e w s H1 H2 H3 E Hne Ht). now split.
 Qed.
